@@ -164,9 +164,23 @@ theorem size_eq_visited {mn sp : Pos} (hl : mn.length = sp.length) (hne : mn ≠
 theorem visited_none_iff {mn sp : Pos} (hl : mn.length = sp.length) : box mn sp = [] ↔ minLessSup mn sp = false :=
   box_eq_nil_iff hl
 
-/-- `range_dim` when `min < sup`: the component-wise difference, otherwise the null dimension. -/
-theorem rangeDim_spec (mn sp : Pos) :
-    rangeDim mn sp = if minLessSup mn sp then List.zipWith (fun m s => s - m) mn sp else zeros mn := rfl
+/-- `range_dim`: if `min < sup` in every component, component `i` is the (positive) number `sup_i - min_i` of
+    values coordinate `i` takes in the range; otherwise it is the null dimension — in both cases of the static
+    size, and its `contents` is the number of positions visited (`size_eq_visited`). -/
+theorem rangeDim_spec (mn sp : Pos) (hl : mn.length = sp.length) :
+    (rangeDim mn sp).length = mn.length ∧
+    (minLessSup mn sp = true → ∀ i (h1 : i < mn.length) (h2 : i < sp.length),
+        (rangeDim mn sp)[i]? = some (sp[i] - mn[i]) ∧ 0 < sp[i] - mn[i]) ∧
+    (minLessSup mn sp = false → rangeDim mn sp = zeros mn) := by
+  refine ⟨?_, ?_, ?_⟩
+  · unfold rangeDim
+    split <;> simp [hl]
+  · intro h i h1 h2
+    have := (minLessSup_iff mn sp hl).mp h i h1 h2
+    refine ⟨?_, by omega⟩
+    simp [rangeDim, h, List.getElem?_zipWith, List.getElem?_eq_getElem h1, List.getElem?_eq_getElem h2]
+  · intro h
+    simp [rangeDim, h, zeros]
 
 /-- the whole-grid range visits every in-range position exactly once **in storage order**:
     the offsets of the visited positions are 0, 1, …, content-1. -/
@@ -350,6 +364,31 @@ theorem interpolate_spec {α φ : Type} {g : Grid α} {v : Pos → α} (hg : Den
     (hfl : InRange (g.size.map (· - 1)) fl) :
     g.interpolate fl fr ip = .ok (multilin v ip fl frf g.size.length []) :=
   interpolate_eq hg ip fl fr frf hfr hfl
+
+/-- `in_range_dim` for any integer type tests exactly `p_i < d_i` in every component (no test against 0: for the
+    signed instantiation a negative component passes; the grid's own position type is unsigned, see `inRange_spec`). -/
+theorem inRangeDim_spec (d p : Pos) (hl : p.length = d.length) :
+    inRangeDim d p = true ↔ ∀ i (h1 : i < p.length) (h2 : i < d.length), p[i] < d[i] := by
+  induction d generalizing p with
+  | nil => cases p <;> simp_all [inRangeDim]
+  | cons e es ih =>
+    cases p with
+    | nil => simp at hl
+    | cons x xs =>
+      have := ih xs (by simpa using hl)
+      simp only [inRangeDim, List.zip_cons_cons, List.all_cons, Bool.and_eq_true, decide_eq_true_eq] at this ⊢
+      rw [this]
+      constructor
+      · rintro ⟨h0, h⟩ i h1 h2
+        cases i with
+        | zero => simpa using h0
+        | succ i => simpa using h i (by simpa using h1) (by simpa using h2)
+      · intro h
+        refine ⟨?_, fun i h1 h2 => ?_⟩
+        · have := h 0 (by simp) (by simp)
+          rwa [List.getElem_cons_zero, List.getElem_cons_zero] at this
+        · have := h (i + 1) (by simpa using h1) (by simpa using h2)
+          rwa [List.getElem_cons_succ, List.getElem_cons_succ] at this
 
 /-- `in_range` (for an unsigned position: all components ≥ 0) is the in-range predicate. -/
 theorem inRange_spec {α : Type} (g : Grid α) {p : Pos} (hl : p.length = g.size.length) (hp : NonNeg p) :
